@@ -58,6 +58,21 @@ def lowerCheck (b : BState K) (l : Lowered K) : Bool :=
 
 end
 
+/-- Arithmetic children of a node (the nodes its value is computed from). -/
+def Expr.arithChildren : Expr K → List Nat
+  | .add a b | .sub a b | .mul a b | .div a b => [a, b]
+  | .horner acc al pz px => [acc, al, pz, px]
+  | .mulAdd a b c => [a, b, c]
+  | _ => []
+
+/-- The expression graph is topologically ordered: every arithmetic child precedes its node
+(`ExprId`s are handed out in creation order by `ExpressionBuilder`). -/
+def dagOk (nodes : Array (Expr K)) : Bool :=
+  (List.range nodes.size).all fun i =>
+    match nodes[i]? with
+    | some e => e.arithChildren.all (· < i)
+    | none => true
+
 /-- Executable form of `P3R.C03.Op.WF`: `MulAdd` has its `c`, `HornerAcc` its `c` and accumulator. -/
 def opWF : Op K → Bool
   | .alu .mulAdd _ _ c _ _ => c.isSome
